@@ -84,7 +84,9 @@ class WsPeer:
         self.scope = {"type": "websocket", "asgi": {"version": "3.0", "spec_version": "2.3"}, "http_version": "1.1",
                       "scheme": "ws", "path": "/ws", "raw_path": b"/ws", "root_path": "", "query_string": b"",
                       "headers": [(b"host", b"testserver")], "client": ("127.0.0.1", 50000), "server": ("testserver", 80),
-                      "subprotocols": ["chat"]}
+                      "subprotocols": ["chat"],
+                      # servers such as uvicorn / hypercorn offer the denial-response extension on every handshake
+                      "extensions": {"websocket.http.response": {}}}
         self.claimed = 0            # receive() calls so far == index of the next message to hand out
         self.recv_calls = 0
         self.recv_by = {}
